@@ -655,4 +655,646 @@ theorem prim_wire_roundtrip (v : PrimVal) (hv : Valid v) (hf : Fits v) (m : Mode
     rw [hnum] at h2
     simp [wireDecode, C02.tag_roundtrip t' hwf rest, hcls', hnum', h2, hdec, Except.map]
 
+/-! ## canonical form -/
+
+theorem pow256_pos (k : Nat) : 0 < 256 ^ k := Nat.pow_pos (by omega)
+
+/-- **unsigned_minimal** — Unsigned (and Enumerated) use the shortest
+    big-endian form: between 1 and 4 octets, value `n`, no leading zero octet
+    unless the string is a single octet; equivalently the length is the least
+    `k ≥ 1` with `n < 256^k`. -/
+theorem unsigned_minimal (n : Nat) (h : n < 4294967296) :
+    ∃ d, encodeUnsignedData n = .ok d ∧ 1 ≤ d.length ∧ d.length ≤ 4 ∧ beVal d = n ∧
+      n < 256 ^ d.length ∧ (1 < d.length → 256 ^ (d.length - 1) ≤ n) ∧
+      (∀ a b rest, d = a :: b :: rest → a.toNat ≠ 0) := by
+  refine ⟨trimZeros (be32 n), encodeUnsignedData_ok n h, trimZeros_length_pos _ (by simp [be32]),
+    Nat.le_trans (trimZeros_length_le _) (by simp [be32]), ?_, ?_, ?_, ?_⟩
+  · rw [trimZeros_beVal, beVal_be32 n h]
+  · have := beVal_lt (trimZeros (be32 n))
+    rwa [trimZeros_beVal, beVal_be32 n h] at this
+  · intro hl
+    have hv : beVal (trimZeros (be32 n)) = n := by rw [trimZeros_beVal, beVal_be32 n h]
+    match hd : trimZeros (be32 n), hl, hv with
+    | a :: b :: rest, _, hv =>
+      have ha := trimZeros_head _ a b rest hd
+      rw [beVal_cons] at hv
+      have hp := pow256_pos (b :: rest).length
+      have : 1 * 256 ^ (b :: rest).length ≤ a.toNat * 256 ^ (b :: rest).length :=
+        Nat.mul_le_mul_right _ (by omega)
+      simp only [List.length_cons, Nat.add_sub_cancel] at *
+      omega
+  · intro a b rest hd
+    exact trimZeros_head _ a b rest hd
+
+/-- **unsigned_shortest** — no octet string that decodes to `n` is shorter
+    than the one the encoder emits. -/
+theorem unsigned_shortest (n : Nat) (h : n < 4294967296) (d : Bytes)
+    (hd : encodeUnsignedData n = .ok d) (d' : Bytes) (hne : d' ≠ []) (hv : beVal d' = n) :
+    d.length ≤ d'.length := by
+  obtain ⟨d0, h0, h1, _, _, _, h5, _⟩ := unsigned_minimal n h
+  rw [hd] at h0; cases h0
+  apply Classical.byContradiction
+  intro hlt
+  have hlt : d'.length < d.length := by omega
+  have hpos : 1 ≤ d'.length := by
+    cases d' with
+    | nil => exact absurd rfl hne
+    | cons _ _ => simp
+  have h5' := h5 (by omega)
+  have hb := beVal_lt d'
+  rw [hv] at hb
+  have : 256 ^ d'.length ≤ 256 ^ (d.length - 1) := Nat.pow_le_pow_right (by omega) (by omega)
+  omega
+
+theorem be32_head_neg (i : Int) (h1 : -2147483648 ≤ i) (h2 : i < 0) :
+    ∃ x r, be32 (i % 4294967296).toNat = x :: r ∧ x.toNat ≥ 128 := by
+  refine ⟨_, _, rfl, ?_⟩
+  simp only [UInt8.toNat_ofNat', Nat.reducePow]
+  omega
+
+theorem be32_head_pos (i : Int) (h1 : 0 ≤ i) (h2 : i < 2147483648) :
+    ∃ x r, be32 (i % 4294967296).toNat = x :: r ∧ x.toNat < 128 := by
+  refine ⟨_, _, rfl, ?_⟩
+  simp only [UInt8.toNat_ofNat', Nat.reducePow]
+  omega
+
+/-- **integer_minimal** — Integer uses the shortest two's-complement form:
+    1..4 octets, decoding to `i`, and unless the string is a single octet its
+    first nine bits are not all equal (neither `00` followed by a clear top
+    bit nor `FF` followed by a set top bit). -/
+theorem integer_minimal (i : Int) (h1 : -2147483648 ≤ i) (h2 : i < 2147483648) :
+    ∃ d, encodeIntegerData i = .ok d ∧ 1 ≤ d.length ∧ d.length ≤ 4 ∧
+      decodeIntegerData d = .ok i ∧
+      (∀ a b rest, d = a :: b :: rest →
+        ¬ (a.toNat = 0 ∧ b.toNat < 128) ∧ ¬ (a.toNat = 255 ∧ b.toNat ≥ 128)) := by
+  obtain ⟨d, hd, hne, hlen, hdec⟩ := integer_data_roundtrip i h1 h2
+  refine ⟨d, hd, ?_, hlen, hdec, ?_⟩
+  · cases d with
+    | nil => exact absurd rfl hne
+    | cons _ _ => simp
+  · intro a b rest hab
+    rw [encodeIntegerData_ok i h1 h2] at hd
+    simp only [Except.ok.injEq] at hd
+    by_cases hneg : i < 0
+    · simp only [hneg, if_true] at hd
+      obtain ⟨x, r, hx, hx128⟩ := be32_head_neg i h1 hneg
+      obtain ⟨a', rest', ha', ha128⟩ := trimNeg_sign _ x r hx hx128
+      rw [hd, hab] at ha'
+      simp only [List.cons.injEq] at ha'
+      obtain ⟨rfl, _⟩ := ha'
+      refine ⟨by omega, ?_⟩
+      exact trimNeg_head _ a b rest (hd.trans hab)
+    · simp only [hneg, if_false] at hd
+      obtain ⟨x, r, hx, hx128⟩ := be32_head_pos i (by omega) h2
+      obtain ⟨a', rest', ha', ha128⟩ := trimPos_sign _ x r hx hx128
+      rw [hd, hab] at ha'
+      simp only [List.cons.injEq] at ha'
+      obtain ⟨rfl, _⟩ := ha'
+      refine ⟨?_, by omega⟩
+      exact trimPos_head _ a b rest (hd.trans hab)
+
+/-- **integer_shortest** — no octet string that decodes to `i` is shorter than
+    the one the encoder emits. -/
+theorem integer_shortest (i : Int) (h1 : -2147483648 ≤ i) (h2 : i < 2147483648) (d : Bytes)
+    (hd : encodeIntegerData i = .ok d) (d' : Bytes) (hd' : decodeIntegerData d' = .ok i) :
+    d.length ≤ d'.length := by
+  obtain ⟨d0, h0, hpos, hlen, hdec, hcan⟩ := integer_minimal i h1 h2
+  rw [hd] at h0; cases h0
+  match d', hd' with
+  | [], hd' => simp [decodeIntegerData] at hd'
+  | _ :: _ :: _ :: _ :: _, _ => simp only [List.length_cons]; omega
+  | [a], hd' =>
+    match d, hpos, hlen, hdec, hcan with
+    | [x], _, _, _, _ => simp
+    | x :: y :: rest, _, hlen, hdec, hcan =>
+      exfalso
+      have hc := hcan x y rest rfl
+      have := a.toNat_lt; have := x.toNat_lt; have := y.toNat_lt
+      match rest, hlen, hdec with
+      | [], _, hdec =>
+        simp only [decodeIntegerData, List.foldl_cons, List.foldl_nil, Except.ok.injEq] at hdec hd'
+        split at hdec <;> split at hd' <;> omega
+      | [z], _, hdec =>
+        have := z.toNat_lt
+        simp only [decodeIntegerData, List.foldl_cons, List.foldl_nil, Except.ok.injEq] at hdec hd'
+        split at hdec <;> split at hd' <;> omega
+      | [z, w], _, hdec =>
+        have := z.toNat_lt; have := w.toNat_lt
+        simp only [decodeIntegerData, List.foldl_cons, List.foldl_nil, Except.ok.injEq] at hdec hd'
+        split at hdec <;> split at hd' <;> omega
+      | _ :: _ :: _ :: _, hlen, _ => simp only [List.length_cons] at hlen; omega
+  | [a, b], hd' =>
+    match d, hpos, hlen, hdec, hcan with
+    | [x], _, _, _, _ => simp
+    | [x, y], _, _, _, _ => simp
+    | x :: y :: z :: rest, _, hlen, hdec, hcan =>
+      exfalso
+      have hc := hcan x y (z :: rest) rfl
+      have := a.toNat_lt; have := b.toNat_lt
+      have := x.toNat_lt; have := y.toNat_lt; have := z.toNat_lt
+      match rest, hlen, hdec with
+      | [], _, hdec =>
+        simp only [decodeIntegerData, List.foldl_cons, List.foldl_nil, Except.ok.injEq] at hdec hd'
+        split at hdec <;> split at hd' <;> omega
+      | [w], _, hdec =>
+        have := w.toNat_lt
+        simp only [decodeIntegerData, List.foldl_cons, List.foldl_nil, Except.ok.injEq] at hdec hd'
+        split at hdec <;> split at hd' <;> omega
+      | _ :: _ :: _, hlen, _ => simp only [List.length_cons] at hlen; omega
+  | [a, b, c], hd' =>
+    match d, hpos, hlen, hdec, hcan with
+    | [x], _, _, _, _ => simp
+    | [x, y], _, _, _, _ => simp
+    | [x, y, z], _, _, _, _ => simp
+    | x :: y :: z :: w :: rest, _, hlen, hdec, hcan =>
+      exfalso
+      have hc := hcan x y (z :: w :: rest) rfl
+      have := a.toNat_lt; have := b.toNat_lt; have := c.toNat_lt
+      have := x.toNat_lt; have := y.toNat_lt; have := z.toNat_lt; have := w.toNat_lt
+      match rest, hlen, hdec with
+      | [], _, hdec =>
+        simp only [decodeIntegerData, List.foldl_cons, List.foldl_nil, Except.ok.injEq] at hdec hd'
+        split at hdec <;> split at hd' <;> omega
+      | _ :: _, hlen, _ => simp only [List.length_cons] at hlen; omega
+
+/-- **bits_header** — for a bit string of ANY length: the first octet is the
+    number of unused bits `(8 − len mod 8) mod 8`, followed by `⌈len/8⌉` octets
+    that unpack to the bits followed by that many zero pad bits. -/
+theorem bits_header (bs : List Bool) :
+    ∃ body, encodeBitsData bs = .ok (UInt8.ofNat ((8 - bs.length % 8) % 8) :: body) ∧
+      body.length = (bs.length + 7) / 8 ∧
+      unpackBits body = bs ++ List.replicate ((8 - bs.length % 8) % 8) false := by
+  have hu : unusedBits bs.length = (8 - bs.length % 8) % 8 := by
+    unfold unusedBits; split <;> omega
+  obtain ⟨body, h1, h2, h3, _⟩ := bits_roundtrip_data bs
+  rw [hu] at h1 h2 h3
+  exact ⟨body, h1, by omega, h2⟩
+
+/-- **real_len4** — a Real is application tag 4 with exactly the four octets
+    of its IEEE‑754 single bit pattern, big-endian. -/
+theorem real_len4 (b : UInt32) :
+    ∃ t, encodePrim (.real b) = .ok t ∧ t.cls = .app ∧ t.num = 4 ∧ t.lvt = 4 ∧
+      t.data.length = 4 ∧ beVal t.data = b.toNat := by
+  have := b.toNat_lt
+  exact ⟨_, rfl, rfl, rfl, rfl, rfl, beVal_be32 _ (by simpa using this)⟩
+
+/-- **double_len8** — a Double is application tag 5 with exactly the eight
+    octets of its IEEE‑754 double bit pattern, big-endian. -/
+theorem double_len8 (b : UInt64) :
+    ∃ t, encodePrim (.double b) = .ok t ∧ t.cls = .app ∧ t.num = 5 ∧ t.lvt = 8 ∧
+      t.data.length = 8 ∧ beVal t.data = b.toNat := by
+  have := b.toNat_lt
+  exact ⟨_, rfl, rfl, rfl, rfl, rfl, beVal_be64 _ (by simpa using this)⟩
+
+/-- **oid_layout** — 10-bit type, 22-bit instance: the four data octets are the
+    big-endian word `type·2^22 + instance`. -/
+theorem oid_layout (ty inst : Int) (h : Valid (.oid ty inst)) :
+    ∃ w : Nat, (w : Int) = ty * 4194304 + inst ∧ w < 4294967296 ∧
+      encodePrim (.oid ty inst) = .ok (appData 12 (be32 w)) := by
+  obtain ⟨ht, hi⟩ := h
+  obtain ⟨w, h1, h2, h3, _⟩ := oid_roundtrip ty inst ht hi
+  exact ⟨w, h3, h2, by simp [encodePrim, h1, Except.map]⟩
+
+/-- **oid_word_bijection** — on ALL 2^32 words (by arithmetic, not sampling):
+    splitting a word gives a representable identifier whose word is the one we
+    started from; and (`oid_roundtrip`) packing a representable identifier and
+    splitting the word gives the identifier back. -/
+theorem oid_word_bijection :
+    (∀ w : Nat, w < 4294967296 →
+        Valid (.oid (oidOfWord w).1 (oidOfWord w).2) ∧
+        oidWord (oidOfWord w).1 (oidOfWord w).2 = .ok w) ∧
+    (∀ ty inst : Int, Valid (.oid ty inst) →
+        ∃ w, w < 4294967296 ∧ oidWord ty inst = .ok w ∧ oidOfWord w = (ty, inst)) := by
+  constructor
+  · intro w hw
+    have hv : Valid (.oid (oidOfWord w).1 (oidOfWord w).2) := by
+      simp only [Valid, oidOfWord, Int.ofNat_eq_natCast]; omega
+    refine ⟨hv, ?_⟩
+    obtain ⟨ht, hi⟩ := hv
+    obtain ⟨w', h1, _, h3, _⟩ := oid_roundtrip _ _ ht hi
+    rw [h1]
+    simp only [oidOfWord, Int.ofNat_eq_natCast] at h3
+    congr 1
+    omega
+  · intro ty inst ⟨ht, hi⟩
+    obtain ⟨w, h1, h2, _, h4⟩ := oid_roundtrip ty inst ht hi
+    exact ⟨w, h2, h1, h4⟩
+
+theorem be32_beVal (a b c d : UInt8) : be32 (beVal [a, b, c, d]) = [a, b, c, d] := by
+  have := a.toNat_lt; have := b.toNat_lt; have := c.toNat_lt; have := d.toNat_lt
+  simp only [be32, beVal, List.foldl_cons, List.foldl_nil, List.cons.injEq, and_true]
+  refine ⟨?_, ?_, ?_, ?_⟩ <;> apply UInt8.toNat_inj.mp <;>
+    simp only [UInt8.toNat_ofNat', Nat.reducePow] <;> omega
+
+/-- the same on octets: every 4-octet object-identifier tag decodes to an
+    identifier whose encoding is that very tag -/
+theorem oid_octets_bijection (a b c d : UInt8) :
+    ∃ ty inst, decodePrim .oid (appData 12 [a, b, c, d]) = .ok (.oid ty inst) ∧
+      encodePrim (.oid ty inst) = .ok (appData 12 [a, b, c, d]) := by
+  have hw := beVal_lt [a, b, c, d]
+  have hw' : beVal [a, b, c, d] < 4294967296 := by simpa using hw
+  obtain ⟨hv, hword⟩ := oid_word_bijection.1 _ hw'
+  refine ⟨(oidOfWord (beVal [a, b, c, d])).1, (oidOfWord (beVal [a, b, c, d])).2, ?_, ?_⟩
+  · simp [decodePrim, checkApp, appData, PrimTy.appTag]
+  · simp [encodePrim, hword, Except.map, be32_beVal]
+
+/-! ## enumerations: generic over the table -/
+
+/-- no two pairs of the table share a name -/
+def NoDupNames (T : EnumTable) : Prop := (T.map (·.1)).Nodup
+/-- no two pairs of the table share a value -/
+def NoDupValues (T : EnumTable) : Prop := (T.map (·.2)).Nodup
+
+theorem xlateName_mem : ∀ (T : EnumTable) (k : Name) (v : Nat), xlateName T k = some v → (k, v) ∈ T
+  | [], _, _, h => by simp [xlateName] at h
+  | (k0, v0) :: rest, k, v, h => by
+      unfold xlateName at h
+      split at h
+      · rename_i v' hv'
+        simp only [Option.some.injEq] at h; subst h
+        exact List.mem_cons_of_mem _ (xlateName_mem rest k _ hv')
+      · split at h
+        · rename_i hk
+          simp only [Option.some.injEq] at h; subst h; subst hk
+          exact List.mem_cons_self
+        · cases h
+
+theorem xlateNum_mem : ∀ (T : EnumTable) (k : Name) (v : Nat), xlateNum T v = some k → (k, v) ∈ T
+  | [], _, _, h => by simp [xlateNum] at h
+  | (k0, v0) :: rest, k, v, h => by
+      unfold xlateNum at h
+      split at h
+      · rename_i k' hk'
+        simp only [Option.some.injEq] at h; subst h
+        exact List.mem_cons_of_mem _ (xlateNum_mem rest _ v hk')
+      · split at h
+        · rename_i hv
+          simp only [Option.some.injEq] at h; subst h; subst hv
+          exact List.mem_cons_self
+        · cases h
+
+theorem xlateName_none (T : EnumTable) (k : Name) (h : k ∉ T.map (·.1)) : xlateName T k = none := by
+  cases hx : xlateName T k with
+  | none => rfl
+  | some v =>
+    exfalso; apply h
+    exact List.mem_map.mpr ⟨(k, v), xlateName_mem T k v hx, rfl⟩
+
+theorem xlateNum_none (T : EnumTable) (v : Nat) (h : v ∉ T.map (·.2)) : xlateNum T v = none := by
+  cases hx : xlateNum T v with
+  | none => rfl
+  | some k =>
+    exfalso; apply h
+    exact List.mem_map.mpr ⟨(k, v), xlateNum_mem T k v hx, rfl⟩
+
+theorem xlateName_of_mem : ∀ (T : EnumTable), NoDupNames T → ∀ k v, (k, v) ∈ T → xlateName T k = some v
+  | [], _, _, _, h => by simp at h
+  | (k0, v0) :: rest, hn, k, v, h => by
+      have hn' : k0 ∉ rest.map (·.1) ∧ NoDupNames rest := by
+        simpa [NoDupNames, List.nodup_cons] using hn
+      unfold xlateName
+      rcases List.mem_cons.mp h with heq | hmem
+      · simp only [Prod.mk.injEq] at heq
+        obtain ⟨rfl, rfl⟩ := heq
+        rw [xlateName_none rest k hn'.1]
+        simp
+      · rw [xlateName_of_mem rest hn'.2 k v hmem]
+
+theorem xlateNum_of_mem : ∀ (T : EnumTable), NoDupValues T → ∀ k v, (k, v) ∈ T → xlateNum T v = some k
+  | [], _, _, _, h => by simp at h
+  | (k0, v0) :: rest, hn, k, v, h => by
+      have hn' : v0 ∉ rest.map (·.2) ∧ NoDupValues rest := by
+        simpa [NoDupValues, List.nodup_cons] using hn
+      unfold xlateNum
+      rcases List.mem_cons.mp h with heq | hmem
+      · simp only [Prod.mk.injEq] at heq
+        obtain ⟨rfl, rfl⟩ := heq
+        rw [xlateNum_none rest v hn'.1]
+        simp
+      · rw [xlateNum_of_mem rest hn'.2 k v hmem]
+
+/-- **name → number → name** is the identity when no value is listed twice -/
+theorem xlate_name_number_name (T : EnumTable) (hv : NoDupValues T) (k : Name) (v : Nat)
+    (h : xlateName T k = some v) : xlateNum T v = some k :=
+  xlateNum_of_mem T hv k v (xlateName_mem T k v h)
+
+/-- **number → name → number** is the identity when no name is listed twice -/
+theorem xlate_number_name_number (T : EnumTable) (hn : NoDupNames T) (k : Name) (v : Nat)
+    (h : xlateNum T v = some k) : xlateName T k = some v :=
+  xlateName_of_mem T hn k v (xlateNum_mem T k v h)
+
+/-- the number an `Enumerated` built from an integer puts on the wire is that integer -/
+theorem enum_number_preserved (T : EnumTable) (hn : NoDupNames T) (i : Int) (v : EnumVal)
+    (h : enumCtor T (.int i) = .ok v) : 0 ≤ i ∧ enumNumber T v = .ok i.toNat := by
+  simp only [enumCtor] at h
+  split at h
+  · cases h
+  · rename_i hi
+    refine ⟨by omega, ?_⟩
+    split at h
+    · rename_i s hs
+      simp only [Except.ok.injEq] at h; subst h
+      simp [enumNumber, xlate_number_name_number T hn s _ hs]
+    · simp only [Except.ok.injEq] at h; subst h
+      rfl
+
+/-- the number behind a name is the table's -/
+theorem enum_name_number (T : EnumTable) (s : Name) (v : EnumVal)
+    (h : enumCtor T (.name s) = .ok v) : v = .name s ∧ ∃ n, xlateName T s = some n ∧ enumNumber T v = .ok n := by
+  simp only [enumCtor] at h
+  split at h
+  · rename_i n hn
+    simp only [Except.ok.injEq] at h; subst h
+    exact ⟨rfl, n, hn, by simp [enumNumber, hn]⟩
+  · cases h
+
+/-- **enum_roundtrip** — for a table without duplicate names or values: every
+    value an `Enumerated` class accepts (any listed name, any integer ≥ 0) whose
+    number fits 32 bits encodes, and decodes to the same value (the same name,
+    or the same number when the table has no name for it). -/
+theorem enum_roundtrip (T : EnumTable) (hn : NoDupNames T) (hv : NoDupValues T)
+    (a : EnumArg) (v : EnumVal) (hc : enumCtor T a = .ok v)
+    (n : Nat) (hnum : enumNumber T v = .ok n) (hfit : n < 4294967296) :
+    ∃ t, enumEncode T v = .ok t ∧ enumDecode T t = .ok v := by
+  obtain ⟨t, h1, h2⟩ := prim_roundtrip (.enum n) hfit
+  refine ⟨t, by simp [enumEncode, hnum, h1], ?_⟩
+  simp only [tyOf] at h2
+  simp only [enumDecode, h2]
+  cases a with
+  | int i =>
+    obtain ⟨hi, hnum'⟩ := enum_number_preserved T hn i v hc
+    rw [hnum] at hnum'
+    simp only [Except.ok.injEq] at hnum'
+    have : ¬ i < 0 := by omega
+    simp only [enumCtor, this, if_false] at hc
+    rw [← hnum'] at hc
+    split at hc
+    · rename_i s hs
+      simp only [Except.ok.injEq] at hc; subst hc
+      simp
+    · rename_i hs
+      simp only [Except.ok.injEq] at hc; subst hc
+      simp
+  | name s =>
+    obtain ⟨rfl, n', hx, hnum'⟩ := enum_name_number T s v hc
+    rw [hnum] at hnum'
+    simp only [Except.ok.injEq] at hnum'
+    subst hnum'
+    simp [xlate_name_number_name T hv s n hx]
+
+/-- a number that does not fit 32 bits is refused -/
+theorem enum_refuses (T : EnumTable) (v : EnumVal) (n : Nat) (hnum : enumNumber T v = .ok n)
+    (hbig : ¬ n < 4294967296) : ∃ e, enumEncode T v = .error e := by
+  obtain ⟨e, he⟩ := prim_refuses (.enum n) hbig
+  exact ⟨e, by simp [enumEncode, hnum, he]⟩
+
+/-- why `NoDupValues` is needed — the shape of the defect repaired by
+    fixes/C01-securitylevel-duplicate-value.patch: with two names on one value
+    the first name comes back as the second.  (a concrete instance, not a theorem
+    about all tables) -/
+example :
+    let T : EnumTable := [([115], 4), ([101], 4)]
+    enumCtor T (.name [115]) = .ok (.name [115]) ∧
+    (∃ t, enumEncode T (.name [115]) = .ok t ∧ enumDecode T t = .ok (.name [101])) := by
+  exact ⟨rfl, _, rfl, rfl⟩
+
+/-! ## the tables regenerated from the live classes -/
+
+open BacVerif.Distinct in
+/-- the executable check run on every generated enumeration table -/
+def enumOK (T : EnumTable) : Bool :=
+  distinctNames (T.map (·.1)) && distinctNats (T.map (·.2)) &&
+  T.all (fun p => decide (p.2 < 4294967296))
+
+theorem enumOK_sound (T : EnumTable) (h : enumOK T = true) :
+    NoDupNames T ∧ NoDupValues T ∧ ∀ p ∈ T, p.2 < 4294967296 := by
+  simp only [enumOK, Bool.and_eq_true, List.all_eq_true, decide_eq_true_eq] at h
+  exact ⟨Distinct.distinctNames_nodup _ h.1.1, Distinct.distinctNats_nodup _ h.1.2, h.2⟩
+
+/-- kernel evaluation of the check over every table of `Gen/Enums.lean` -/
+theorem gen_enums_checked : Gen.Enums.enumTables.all (fun p => enumOK p.2) = true := by
+  decide +kernel
+
+/-- **gen_enums_ok** — every Enumerated subclass of the tree under test has
+    pairwise different names, pairwise different values, all below 2^32. -/
+theorem gen_enums_ok : ∀ p ∈ Gen.Enums.enumTables,
+    NoDupNames p.2 ∧ NoDupValues p.2 ∧ ∀ q ∈ p.2, q.2 < 4294967296 := by
+  intro p hp
+  have := List.all_eq_true.mp gen_enums_checked p hp
+  exact enumOK_sound p.2 this
+
+/-- **gen_enum_roundtrip** — hence for every Enumerated subclass of the tree:
+    every name round-trips to itself and every 32-bit number to itself. -/
+theorem gen_enum_roundtrip : ∀ p ∈ Gen.Enums.enumTables, ∀ (a : EnumArg) (v : EnumVal),
+    enumCtor p.2 a = .ok v → (∀ i, a = .int i → i < 4294967296) →
+    ∃ t, enumEncode p.2 v = .ok t ∧ enumDecode p.2 t = .ok v := by
+  intro p hp a v hc hb
+  obtain ⟨hn, hv, hlt⟩ := gen_enums_ok p hp
+  cases a with
+  | int i =>
+    obtain ⟨hi, hnum⟩ := enum_number_preserved p.2 hn i v hc
+    exact enum_roundtrip p.2 hn hv _ v hc _ hnum (by have := hb i rfl; omega)
+  | name s =>
+    obtain ⟨_, n, hx, hnum⟩ := enum_name_number p.2 s v hc
+    exact enum_roundtrip p.2 hn hv _ v hc n hnum (hlt _ (xlateName_mem p.2 s n hx))
+
+/-- `_app_tag` of the thirteen live classes = the model's tag numbers -/
+theorem gen_app_tags_ok : PrimTy.all.map PrimTy.appTag = Gen.Enums.genAppTags := by decide
+
+/-- `ObjectIdentifier.maximum_instance_number` = the model's 22-bit limit -/
+theorem gen_oid_max_ok : Gen.Enums.oidMaxInstance = 4194303 := by decide
+
+/-- every named object type fits the 10-bit type field -/
+theorem gen_object_types_ok :
+    Gen.Enums.objectTypeTable.all (fun p => decide (p.2 < 1024)) = true := by decide +kernel
+
+/-! ## Unsigned and its range-limited subclasses -/
+
+/-- what the constructor accepts is what it stores -/
+theorem unsignedCtor_ok (lo : Int) (hi : Option Int) (arg : Int) (n : Nat)
+    (h : unsignedCtor lo hi arg = .ok n) (hlo : 0 ≤ lo) :
+    (n : Int) = arg ∧ lo ≤ arg ∧ (∀ h', hi = some h' → arg ≤ h') := by
+  unfold unsignedCtor at h
+  split at h
+  · cases h
+  · split at h
+    · split at h
+      · cases h
+      · simp only [Except.ok.injEq] at h; subst h
+        refine ⟨by omega, by omega, ?_⟩
+        intro h' he; cases he; omega
+    · simp only [Except.ok.injEq] at h; subst h
+      exact ⟨by omega, by omega, by intro h' he; cases he⟩
+
+/-- **unsignedCtor_roundtrip** — a class whose limits lie inside 0..2^32−1
+    never meets the encoder's refusal: everything the constructor accepts
+    encodes and decodes to itself. -/
+theorem unsignedCtor_roundtrip (lo : Int) (hi : Int) (hlo : 0 ≤ lo) (hhi : hi < 4294967296)
+    (arg : Int) (n : Nat) (h : unsignedCtor lo (some hi) arg = .ok n) :
+    (n : Int) = arg ∧ ∃ t, encodePrim (.unsigned n) = .ok t ∧ decodePrim .unsigned t = .ok (.unsigned n) := by
+  obtain ⟨h1, _, h3⟩ := unsignedCtor_ok lo (some hi) arg n h hlo
+  have := h3 hi rfl
+  exact ⟨h1, prim_roundtrip (.unsigned n) (by simp only [Valid]; omega)⟩
+
+/-- outside the limits the constructor refuses -/
+theorem unsignedCtor_refuses (lo : Int) (hi : Option Int) (arg : Int)
+    (h : arg < lo ∨ ∃ h', hi = some h' ∧ arg > h') : ∃ e, unsignedCtor lo hi arg = .error e := by
+  unfold unsignedCtor
+  rcases h with h | ⟨h', rfl, h⟩
+  · exact ⟨.valueRange, by simp [h]⟩
+  · by_cases hl : arg < lo
+    · exact ⟨.valueRange, by simp [hl]⟩
+    · exact ⟨.valueRange, by simp [hl, h]⟩
+
+/-- the limits of the live Unsigned classes: low limit ≥ 0, high limit (if any) < 2^32 -/
+theorem gen_unsigned_limits_ok :
+    Gen.Enums.unsignedLimits.all (fun p =>
+      decide (0 ≤ p.2.1) && (match p.2.2 with | none => true | some h => decide (h < 4294967296))) = true := by
+  decide +kernel
+
+/-! ## named bit strings -/
+
+theorem bitIndex_mem : ∀ (T : BitTable) (k : Name) (i : Nat), bitIndex T k = some i → (k, i) ∈ T
+  | [], _, _, h => by simp [bitIndex] at h
+  | (k0, v0) :: rest, k, i, h => by
+      unfold bitIndex at h
+      split at h
+      · rename_i hk
+        simp only [Option.some.injEq] at h; subst h; subst hk
+        exact List.mem_cons_self
+      · exact List.mem_cons_of_mem _ (bitIndex_mem rest k i h)
+
+/-- different names denote different bits when no position is listed twice -/
+theorem bitIndex_inj (T : BitTable) (hv : (T.map (·.2)).Nodup) (a b : Name) (i : Nat)
+    (ha : bitIndex T a = some i) (hb : bitIndex T b = some i) : a = b := by
+  have h1 := xlateNum_of_mem T hv a i (bitIndex_mem T a i ha)
+  have h2 := xlateNum_of_mem T hv b i (bitIndex_mem T b i hb)
+  rw [h1] at h2
+  exact Option.some.inj h2
+
+theorem bitsFold_spec (T : BitTable) (len : Nat) : ∀ (names : List Name) (acc : List Bool),
+    acc.length = len →
+    (∀ name ∈ names, ∃ i, bitIndex T name = some i ∧ i < len) →
+    ∃ bs, names.foldlM (fun (acc : List Bool) name =>
+        match bitIndex T name with
+        | none => Except.error Err.invalidDatatype
+        | some i => if i < acc.length then Except.ok (acc.set i true) else Except.error Err.other) acc
+        = .ok bs ∧ bs.length = len ∧
+      ∀ j, bs[j]? = some true ↔ (acc[j]? = some true ∨ ∃ name ∈ names, bitIndex T name = some j)
+  | [], acc, hl, _ => ⟨acc, rfl, hl, by intro j; simp⟩
+  | name :: names, acc, hl, h => by
+      obtain ⟨i, hi, hlt⟩ := h name List.mem_cons_self
+      have hlt' : i < acc.length := by omega
+      obtain ⟨bs, h1, h2, h3⟩ := bitsFold_spec T len names (acc.set i true) (by simp [hl])
+        (fun n hn => h n (List.mem_cons_of_mem _ hn))
+      refine ⟨bs, ?_, h2, ?_⟩
+      · simp only [List.foldlM_cons, hi, hlt', if_true]
+        exact h1
+      · intro j
+        rw [h3 j, List.getElem?_set]
+        constructor
+        · rintro (hj | ⟨n, hn, hnj⟩)
+          · by_cases hij : i = j
+            · subst hij
+              exact Or.inr ⟨name, List.mem_cons_self, hi⟩
+            · simp only [hij, if_false] at hj
+              exact Or.inl hj
+          · exact Or.inr ⟨n, List.mem_cons_of_mem _ hn, hnj⟩
+        · rintro (hj | ⟨n, hn, hnj⟩)
+          · by_cases hij : i = j
+            · subst hij; left; simp [hlt']
+            · left; simp only [hij, if_false]; exact hj
+          · rcases List.mem_cons.mp hn with rfl | hn
+            · rw [hi] at hnj
+              simp only [Option.some.injEq] at hnj
+              subst hnj
+              left; simp [hlt']
+            · exact Or.inr ⟨n, hn, hnj⟩
+
+/-- **bitsFromNames_sets** — building a named bit string from names whose
+    positions lie below `bitLen` succeeds, has exactly `bitLen` bits, and bit
+    `j` is set iff one of the given names denotes position `j`. -/
+theorem bitsFromNames_sets (T : BitTable) (len : Nat) (names : List Name)
+    (h : ∀ name ∈ names, ∃ i, bitIndex T name = some i ∧ i < len) :
+    ∃ bs, bitsFromNames T len names = .ok bs ∧ bs.length = len ∧
+      ∀ j, bs[j]? = some true ↔ ∃ name ∈ names, bitIndex T name = some j := by
+  obtain ⟨bs, h1, h2, h3⟩ := bitsFold_spec T len names (List.replicate len false) (by simp) h
+  refine ⟨bs, h1, h2, ?_⟩
+  intro j
+  rw [h3 j]
+  constructor
+  · rintro (hj | hj)
+    · exfalso
+      rw [List.getElem?_replicate] at hj
+      split at hj <;> simp at hj
+    · exact hj
+  · exact Or.inr
+
+open BacVerif.Distinct in
+/-- the executable check run on every generated bit-name table -/
+def bitsOK (len : Nat) (T : BitTable) : Bool :=
+  distinctNames (T.map (·.1)) && distinctNats (T.map (·.2)) && T.all (fun p => decide (p.2 < len))
+
+theorem gen_bits_checked : Gen.Enums.bitTables.all (fun p => bitsOK p.2.1 p.2.2) = true := by
+  decide +kernel
+
+/-- **gen_bits_ok** — every BitString subclass of the tree under test: names
+    pairwise different, positions pairwise different and below `bitLen`. -/
+theorem gen_bits_ok : ∀ p ∈ Gen.Enums.bitTables,
+    (p.2.2.map (·.1)).Nodup ∧ (p.2.2.map (·.2)).Nodup ∧ ∀ q ∈ p.2.2, q.2 < p.2.1 := by
+  intro p hp
+  have h := List.all_eq_true.mp gen_bits_checked p hp
+  simp only [bitsOK, Bool.and_eq_true, List.all_eq_true, decide_eq_true_eq] at h
+  exact ⟨Distinct.distinctNames_nodup _ h.1.1, Distinct.distinctNats_nodup _ h.1.2, h.2⟩
+
+/-! ## non-vacuity: concrete, non-trivial instances of every hypothesis
+    (these are tests of the statements, not the theorems) -/
+
+-- `Valid` is met by boundary values of every constrained type and fails just outside
+example : Valid (.unsigned 4294967295) ∧ ¬ Valid (.unsigned 4294967296) := by decide
+example : Valid (.integer (-2147483648)) ∧ Valid (.integer 2147483647) ∧
+    ¬ Valid (.integer 2147483648) ∧ ¬ Valid (.integer (-2147483649)) := by decide
+example : Valid (.oid 1023 4194303) ∧ ¬ Valid (.oid 1024 0) ∧ ¬ Valid (.oid 0 4194304) := by decide
+example : Valid (.date 255 255 255 255) ∧ ¬ Valid (.time 24 0 0 256) := by decide
+example : Valid (.charstr 0 [0x41]) ∧ Valid (.bits [true, false, true]) := by decide
+
+-- the design-time witnesses: refused by the (fixed) encoder, not altered
+example : encodePrim (.integer 2147483648) = .error .valueRange := rfl
+example : encodePrim (.integer 4294967301) = .error .valueRange := rfl
+
+-- canonical octets of a few boundary values
+example : encodePrim (.integer (-129)) = .ok (appData 3 [0xFF, 0x7F]) := rfl
+example : encodePrim (.integer 128) = .ok (appData 3 [0x00, 0x80]) := rfl
+example : encodePrim (.integer (-128)) = .ok (appData 3 [0x80]) := rfl
+example : encodePrim (.unsigned 65536) = .ok (appData 2 [0x01, 0x00, 0x00]) := rfl
+example : encodePrim (.bits [true, false, true]) = .ok (appData 8 [5, 0xA0]) := rfl
+example : encodePrim (.bits []) = .ok (appData 8 [0]) := rfl
+example : encodePrim (.oid 8 1234) = .ok (appData 12 [0x02, 0x00, 0x04, 0xD2]) := rfl
+
+-- `Fits` / `ModeOK` / the wire theorem's hypotheses, incl. the boolean special case
+example : Fits (.octets [1, 2, 3]) ∧ ModeOK (.ctx 254) ∧ ModeOK .app ∧ ¬ ModeOK (.ctx 256) := by decide
+example : wireEncode (.ctx 254) (.bool true) = .ok [0xF9, 0xFE, 0x01] := rfl
+example : wireDecode .bool (.ctx 254) [0xF9, 0xFE, 0x01, 0x77] = .ok (.bool true, [0x77]) := rfl
+example : wireEncode .app (.bool true) = .ok [0x11] := rfl
+example : wireEncode (.ctx 3) (.integer (-1)) = .ok [0x39, 0xFF] := rfl
+
+-- the enumeration hypotheses are met by a live table with more than one entry
+example : ∃ p ∈ Gen.Enums.enumTables, p.1 = "basetypes.SecurityLevel" ∧ p.2.length = 6 ∧
+    NoDupNames p.2 ∧ NoDupValues p.2 := by
+  refine ⟨("basetypes.SecurityLevel", Gen.Enums.enum_basetypes_SecurityLevel), ?_, rfl, rfl, ?_⟩
+  · simp [Gen.Enums.enumTables]
+  · have h := gen_enums_ok ("basetypes.SecurityLevel", Gen.Enums.enum_basetypes_SecurityLevel)
+      (by simp [Gen.Enums.enumTables])
+    exact ⟨h.1, h.2.1⟩
+
+-- `unsignedCtor_roundtrip` hypotheses: Unsigned16
+example : unsignedCtor 0 (some 65535) 65535 = .ok 65535 ∧
+    unsignedCtor 0 (some 65535) 65536 = .error .valueRange ∧
+    unsignedCtor 0 (some 65535) (-1) = .error .valueRange := ⟨rfl, rfl, rfl⟩
+
+-- `bitsFromNames_sets` hypothesis: StatusFlags ['fault', 'outOfService'] = [0,1,0,1]
+example : bitsFromNames Gen.Enums.bits_basetypes_StatusFlags 4
+    [[102, 97, 117, 108, 116], [111, 117, 116, 79, 102, 83, 101, 114, 118, 105, 99, 101]]
+    = .ok [false, true, false, true] := rfl
+
 end BacVerif.C01
